@@ -260,12 +260,25 @@ CONTEXTS = {
     'signed': dict(x=(-4, 3), y=(-1, 1), z=(-20, 20), w=(-20, 20), b='bool', c='bool'),
     'allneg': dict(x=(-8, -1), y=(0, 1), z=(-3, 12), w=(-3, 12), b='bool', c='bool'),
     'narrow-dividend': dict(x=(0, 1), y=(0, 6), z=(-3, 3), w=(-3, 3), b='bool', c='bool'),
+    # hints with a single value still range over their bits (0..3, 0..1, -4..-1)
+    'singletons': dict(x=(3, 3), y=(0, 0), z=(-2, -2), w=(-2, -2), b='bool', c='bool'),
 }
+
+# registered operator definitions whose stored text needs its parentheses
+DEFINITIONS = [
+    ('p == (x / (y * z) = w)', r'p \/ (y * z = 0)'),
+    ('p == (x - (y - z) = w)\nq == (x * (y + z) < w)', r'p /\ ~ q'),
+    ('p == (w % (y + 1) = x)\nq == ~ (b => c)', r'p \/ q \/ (y + 1 = 0)'),
+    ('m == x * (y * z)\np == (m = w)' if False else 'p == ((x * (y - 1)) * (z + 1) = w)', 'p <=> b'),
+    ("p == ((x + y)' = z)", r'p /\ b'),
+    ('p == (ite(b, x, y) - (z - 1) = w)', 'p'),
+]
 
 FORMULAS = [
     'x + y <= z - 2', 'x - y = z', 'x * y = z', 'x * y < z + 3',
     r'(y = 0) \/ (x / y = z)', r'(y = 0) \/ (x % y = z)',
     'x / 3 = y', 'x % 3 = y', 'z / -2 = x', 'z % -2 = y', '-3 < x',
+    'z / 2 = x', 'z / 4 = y', 'z % 4 = y', 'z / 1 = w', 'z * 2 = w', 'z / 8 = x',
     'x # y', 'x /= y', 'x != y', 'x >= y', 'x > y', 'x <= y', 'x =< y',
     'x < y', 'x = y + 1', r'x \in 1..3', r'z \in -2..4',
     'ite(b, x, y) = z', 'ite(x < y, b, c)', 'IF b THEN x = 1 ELSE y = 1',
